@@ -130,6 +130,14 @@ func c16Doc(w *W, harness string, text []byte, nd bool) {
 
 // ---- Clone histories ----
 
+var c16CloneDocs = []string{
+	`["a"]`,
+	`{"k":"plain string value number one","e":"esc\n"}`,
+	`["` + strings.Repeat("long plain string ", 9) + `",{"key-without-escape":"v","\u00e9":"w"},"tail"]`,
+	`{"mid":"medium sized document","n":[1,2,"three"]}`,
+	`[["x","yy","zzz"],"` + strings.Repeat("q", 70) + `"]`,
+}
+
 // c16Op: obj/src/dst index 0 = original, 1.. = clones
 type c16Op struct {
 	Kind int `json:"kind"` // 0 edit, 1 clone
@@ -423,10 +431,95 @@ func c16Body(w *W) {
 		}
 	}
 	lap("clone")
+	// (d) one long-lived Clone destination fed from documents of different sizes, every order
+	w.Note("Clone into ONE long-lived destination: every sequence of 3 and 4 out of 5 documents of different sizes (strings with and without escapes), both string modes; after every Clone the destination must denote the source document, and still after the source's input buffer is overwritten")
+	cdocs := c16CloneDocs
+	var seq []int
+	var recSeq func()
+	recSeq = func() {
+		if len(seq) >= 3 {
+			w.res.States++
+			if w.Mine() && !w.Expired() {
+				for _, cfg := range strModes() {
+					var dst *simdjson.ParsedJson
+					for step, di := range seq {
+						text := []byte(cdocs[di])
+						d, _ := ref.Parse(text)
+						in := append([]byte(nil), text...)
+						w.cur.Set("C16-clone-dst", cfg.String(), []byte(fmt.Sprint(seq)))
+						pj, err, p := doParse(cfg, in, nil, false)
+						w.res.Transitions++
+						w.res.Evaluations++
+						w.res.Validated++
+						if err != nil || p != "" {
+							w.Fatal("clone-dst document rejected: %v %v", err, p)
+						}
+						dst = pj.Clone(dst)
+						for i := range in {
+							in[i] = '#'
+						}
+						if what, walker := compareWalkers(dst, mkExpect([]*ref.Node{d}), true); what != "" {
+							w.Violate(Violation{Harness: "C16-clone-dst", Fingerprint: "C16/clone-dst", What: fmt.Sprintf("documents %v cloned one after the other into the same destination: after step %d the destination does not denote document %d: %s: %s", seq, step, di, walker, what), Case: []byte(fmt.Sprint(seq)), CaseText: fmt.Sprint(seq), Config: cfg.String()})
+							break
+						}
+					}
+				}
+			}
+		}
+		if len(seq) == 4 {
+			return
+		}
+		for i := range cdocs {
+			dup := false
+			for _, j := range seq {
+				if i == j {
+					dup = true
+				}
+			}
+			if dup {
+				continue
+			}
+			seq = append(seq, i)
+			recSeq()
+			seq = seq[:len(seq)-1]
+		}
+	}
+	recSeq()
+	lap("clone-dst")
 	w.Sample("clone history sample: Clone(original, nil); SetStringBytes(40B) on original at value position #0; Clone(clone1 into original)")
 }
 
 func c16Replay(v *Violation) string {
+	if v.Harness == "C16-clone-dst" {
+		var seq []int
+		for _, f := range strings.Fields(strings.Trim(string(v.Case), "[]")) {
+			var n int
+			fmt.Sscanf(f, "%d", &n)
+			seq = append(seq, n)
+		}
+		cfg := parseCfg(v.Config)
+		var dst *simdjson.ParsedJson
+		for step, di := range seq {
+			if di < 0 || di >= len(c16CloneDocs) {
+				return "cannot decode"
+			}
+			text := []byte(c16CloneDocs[di])
+			d, _ := ref.Parse(text)
+			in := append([]byte(nil), text...)
+			pj, err, p := doParse(cfg, in, nil, false)
+			if err != nil || p != "" {
+				return fmt.Sprint("FAIL rejected ", err, p)
+			}
+			dst = pj.Clone(dst)
+			for i := range in {
+				in[i] = '#'
+			}
+			if what, walker := compareWalkers(dst, mkExpect([]*ref.Node{d}), true); what != "" {
+				return fmt.Sprintf("FAIL after step %d: %s: %s", step, walker, what)
+			}
+		}
+		return "OK"
+	}
 	if strings.HasPrefix(v.Harness, "C16-clone/") {
 		name := strings.TrimPrefix(v.Harness, "C16-clone/")
 		var hist []c16Op
